@@ -33,3 +33,16 @@ constexpr bool pre_c09_cos(fixed_t x) { return x.v > -(1ll << 62) && x.v < (1ll 
 }
 inline void inst_c09(fixed_t x) { (void)sin(x); (void)cos(x); (void)detail::sin_range(x); }
 }
+// ---- deductive accuracy of the polynomial kernel (thorough tier, sliced): on the folded domain |x| <= phi/2 the result of
+// sin differs from the EXACT Maclaurin polynomial S(x) = x - x^3/3! + x^5/5! - x^7/7! (x in raw units, evaluated in
+// 128-bit integers scaled by 5040 * 2^96) by at most 3 ulp. With the Taylor remainder |sin t - P(t)| <= t^9/9! (assumed
+// textbook lemma) and |pi - phi| < 0.42 ulp this is the bound 4 ulp + r^9/9! of the property, without any libm oracle.
+namespace vfspec {
+extern "C" {
+constexpr wide vf_sin_poly_scaled(long x)
+  { wide X = x, x2 = X * X, x3 = x2 * X, x5 = x3 * x2, x7 = x5 * x2;
+    return (wide(5040) << 96) * X - (wide(840) << 64) * x3 + (wide(42) << 32) * x5 - x7; }
+constexpr bool post_sin_poly(fixed_t x, fixed_t r)
+  { wide d = (wide(5040) << 96) * wide(r.v) - vf_sin_poly_scaled(x.v); if( d < 0 ) d = -d; return d <= 3 * (wide(5040) << 96); }
+}
+}
